@@ -274,8 +274,17 @@ def seg_total(ctx, repo):
         m = repo.mod(rel)
         for q, f in sorted(m.funcs.items()):
             for node in walk_no_nested(f.node):
-                if isinstance(node, ast.Compare) and len(node.ops) == 1 and isinstance(node.ops[0], (ast.In, ast.NotIn)) and isinstance(node.comparators[0], (ast.List, ast.Tuple, ast.Set)):
-                    vals = [e.value for e in node.comparators[0].elts if isinstance(e, ast.Constant) and isinstance(e.value, str)]
+                if isinstance(node, ast.Compare) and len(node.ops) == 1 and isinstance(node.ops[0], (ast.In, ast.NotIn)) and isinstance(node.comparators[0], (ast.List, ast.Tuple, ast.Set, ast.Name)):
+                    if isinstance(node.comparators[0], ast.Name):
+                        # a named module constant holding the list
+                        from ..consteval import try_fold as _tf
+
+                        folded = _tf(node.comparators[0])
+                        if not isinstance(folded, (list, tuple, set, frozenset)):
+                            continue
+                        vals = [v for v in folded if isinstance(v, str)]
+                    else:
+                        vals = [e.value for e in node.comparators[0].elts if isinstance(e, ast.Constant) and isinstance(e.value, str)]
                     got = set(vals) & SEG_ONCURVE
                     if len(got) >= 2:
                         n += 1
